@@ -1144,10 +1144,10 @@ fn directed(t: &mut Trace, rng: &mut Rng) {
     }
 
     // (3d) an issuer's topic list narrowed by dropping SEVERAL topics in one update: two adjacent ones,
-    // the first ones, the last ones, all but one, a disjoint replacement. Identity 8 relies on issuer 4
-    // for every topic; issuer 5 is trusted for everything too but has issued nothing, so each dropped
-    // topic is left without a counted claim.
-    for (shape_no, (shape, new_list)) in [
+    // the first ones, the last ones, all but one, non-adjacent ones, reordered. Identity 8 holds claims
+    // of issuers 4 AND 5 for every topic. After narrowing issuer 4, each topic is probed without touching
+    // issuer 4's entries: issuer 5 gives up that one topic, so the topic hangs on issuer 4 alone.
+    for (shape, new_list) in [
         ("drop-first-two", vec![3u32, 7]),
         ("drop-middle-two", vec![1, 7]),
         ("drop-last-two", vec![1, 2]),
@@ -1156,10 +1156,7 @@ fn directed(t: &mut Trace, rng: &mut Rng) {
         ("keep-second", vec![2]),
         ("drop-nonadjacent", vec![2, 7]),
         ("reordered-subset", vec![7, 1]),
-    ]
-    .into_iter()
-    .enumerate()
-    {
+    ] {
         t.seq(&format!("directed narrowing several topics {}", shape));
         let mut s = Sim::new();
         setup_basic(&mut s, t);
@@ -1170,37 +1167,26 @@ fn directed(t: &mut Trace, rng: &mut Rng) {
         s.add_issuer(t, 0, 5, &TOPICS);
         for tp in TOPICS {
             s.allow_key(t, 4, 1, ED25519, 0, tp);
-            let c = s.good_claim(4, 8, tp, 1, TS0 + 5000, b"n", rng);
+            let c = s.good_claim(4, 8, tp, 1, TS0 + 5000, b"n4", rng);
+            s.add_claim(t, 8, &c);
+            s.allow_key(t, 5, 3, SECP256R1, 0, tp);
+            let c = s.good_claim(5, 8, tp, 3, TS0 + 5000, b"n5", rng);
             s.add_claim(t, 8, &c);
         }
-        s.verify_op(t, 11); // every topic settled by issuer 4
+        s.verify_op(t, 11);
         s.update_issuer(t, 0, 4, &new_list);
-        s.verify_op(t, 11); // must fail: the dropped topics have no counted claim any more
-        // topic by topic: require only one dropped / kept topic at a time (starting with another
-        // topic in every shape: each probe disturbs the registry for the later ones)
-        let mut order = TOPICS.to_vec();
-        order.rotate_left(shape_no % TOPICS.len());
-        for tp in order {
-            for other in TOPICS {
-                if other != tp {
-                    s.remove_topic(t, 0, other);
-                }
-            }
+        s.verify_op(t, 11); // issuer 5 still settles everything
+        for tp in TOPICS {
+            let without: Vec<u32> = TOPICS.iter().copied().filter(|x| *x != tp).collect();
+            s.update_issuer(t, 0, 5, &without);
             s.verify_op(t, 11); // ok iff issuer 4 kept `tp`
-            for other in TOPICS {
-                if other != tp {
-                    s.add_topic(t, 0, other);
-                }
-            }
-            // re-adding wiped the other topics' issuer lists: restore both issuers' assignments
             s.update_issuer(t, 0, 5, &TOPICS);
-            let mut back = new_list.clone();
-            if !back.contains(&tp) {
-                back.push(tp);
-            }
-            s.update_issuer(t, 0, 4, &back);
-            s.update_issuer(t, 0, 4, &new_list);
         }
+        // and all at once: issuer 5 de-listed, only what issuer 4 kept counts
+        s.remove_issuer(t, 0, 5);
+        s.verify_op(t, 11);
+        s.update_issuer(t, 0, 4, &TOPICS);
+        s.verify_op(t, 11);
     }
     // disjoint replacement and back
     t.seq("directed narrowing disjoint replacement");
